@@ -27,7 +27,7 @@ COMPONENTS = {
              'Individual.__eq__ / __hash__ (set de-duplication)', 'the five run loops'],
     'stub': ['user objective', 'PRNG seam (also reports the tournament draw)', 'joblib', 'time.time', 'uuid1'],
 }
-PROBES_EXPECTED = ['truncate_other_k', 'truncate_k_ge_len', 'truncate_calls', 'truncate_cut_inside_front', 'truncate_with_duplicates', 'crowding_calls', 'crowding_small_front',
+PROBES_EXPECTED = ['near_equal_crowding', 'moved_onto_another_design', 'truncate_other_k', 'truncate_k_ge_len', 'truncate_calls', 'truncate_cut_inside_front', 'truncate_with_duplicates', 'crowding_calls', 'crowding_small_front',
                    'crowding_exact_formula', 'crowding_with_ties', 'crowding_zero_range', 'tournament_calls',
                    'tournament_front_decides', 'tournament_dominance_decides', 'tournament_random']
 
@@ -56,6 +56,28 @@ def hooks(ctx, w, D):
                     ctx.probe('truncate_k_ge_len')
                 if not judge_truncate(pool, k, orig(list(pool), k)):
                     break
+            if n >= 3 and st['t'] <= 12 and not ctx.violations:
+                # the same ranked pool with crowding distances that differ only in the 8th decimal (regularly spaced fronts,
+                # costs that differ beyond the 7th decimal): different is different, the larger one is kept
+                from artap.individual import Individual
+                saved = Individual.counter
+                clones = []
+                for i, p in enumerate(pool):
+                    c = p.__class__(list(p.vector))
+                    c.features['front_number'] = p.features['front_number']
+                    c.features['crowding_distance'] = 0.4 + 2.5e-8 * D.dec('work', ('ncd', st['t'], i), 4 * n)
+                    clones.append(c)
+                Individual.counter = saved
+                ctx.probe('near_equal_crowding')
+                for k in sorted({1, max(1, n // 2), n - 1}):
+                    if not judge_truncate(clones, k, orig(list(clones), k)):
+                        break
+                if not ctx.violations:
+                    # a member that took part in a truncation and was then moved onto another member's design (swarm moves,
+                    # re-rolled designs): the next truncation sees one design twice and returns it once
+                    clones[0].vector = list(clones[1].vector)
+                    ctx.probe('moved_onto_another_design')
+                    judge_truncate(clones, n, orig(list(clones), n))
         return res
 
     def judge_truncate(pool, size, res):
